@@ -223,7 +223,7 @@ def _exports_agree(A, Bt, sig, with_hdf5):
 
 
 def h_equal(nr, nc, route, accs=ACCESSORS):
-    md = pick(['none', 'both'], 'md')
+    md = pick(['none', 'both', 'samp'] + (['obs'] if len(accs) == len(ACCESSORS) else []), 'md')      # metadata on one axis only, too
     A, a = make_table(nr, nc, md=md, zeros=1, type_='OTU table')
     Bt = alt_table(a, a.dense, route, object_ids=(len(accs) == len(ACCESSORS) and flag('ids-as-object-array')))
     if len(accs) == len(ACCESSORS):
